@@ -410,74 +410,75 @@ def rank_of(expr, env: Dict[str, int]) -> Optional[int]:
 
 
 def scalar_conversion_of_array(f: FuncInfo):
-    """int(v)/float(v) with v definitely of rank >= 1 (TypeError under numpy >= 2).
-    Ranks are tracked per name along the statement order of each block; a name assigned in a
-    nested block is forgotten afterwards (conservative)."""
+    """int(v)/float(v) where, on some CFG path, v is definitely an array of rank >= 1
+    (TypeError under numpy >= 2).  Forward dataflow over the statement CFG; the value per
+    name is the set of ranks it may have ({0}, {1}, {None}=unknown, unions at joins); a
+    conversion is reported when 1 is among the ranks reaching it."""
+    from ..core.cfg import CFG, stores_of
+    cfg = CFG(f.node)
+    IN = {n.id: None for n in cfg.nodes}
+    IN[cfg.entry.id] = {}
+    work = [cfg.entry]
+
+    def rank_set(expr, env):
+        # evaluate with every combination collapsed: a name contributes 1 if 1 is possible
+        env1 = {k: (1 if 1 in v else (0 if v == {0} else None)) for k, v in env.items()}
+        return rank_of(expr, {k: v for k, v in env1.items() if v is not None})
+
+    def transfer(n, env):
+        a = n.ast
+        if n.kind == "stmt" and isinstance(a, ast.Assign):
+            r = rank_set(a.value, env)
+            env2 = dict(env)
+            for t in a.targets:
+                for x in ast.walk(t):
+                    if isinstance(x, ast.Name) and isinstance(x.ctx, ast.Store):
+                        env2.pop(x.id, None)
+                if isinstance(t, ast.Name):
+                    env2[t.id] = {r}
+            return env2
+        st = stores_of(n)
+        if st:
+            env2 = dict(env)
+            for nm in st:
+                env2[nm] = {None}
+            return env2
+        return env
+
+    steps = 0
+    while work and steps < 5000:
+        steps += 1
+        n = work.pop()
+        env = IN[n.id]
+        out = transfer(n, env)
+        for m, l in n.succ:
+            old = IN[m.id]
+            if old is None:
+                IN[m.id] = out
+                work.append(m)
+            else:
+                merged = dict(old)
+                ch = False
+                for k in set(old) | set(out):
+                    v = old.get(k, {None}) | out.get(k, {None})
+                    if v != old.get(k):
+                        merged[k] = v
+                        ch = True
+                if ch:
+                    IN[m.id] = merged
+                    work.append(m)
     hits = []
-
-    def scan_expr(e, env):
-        for n in ast.walk(e):
-            if isinstance(n, ast.Call) and isinstance(n.func, ast.Name) and n.func.id in ("int", "float") and len(n.args) == 1:
-                if rank_of(n.args[0], env) == 1:
-                    hits.append(n)
-
-    def assigned(stmts):
-        out = set()
-        for s in stmts:
-            for n in ast.walk(s):
-                if isinstance(n, ast.Name) and isinstance(n.ctx, ast.Store):
-                    out.add(n.id)
-        return out
-
-    def block(stmts, env):
-        for s in stmts:
-            if isinstance(s, (ast.FunctionDef, ast.AsyncFunctionDef, ast.ClassDef)):
+    for n in cfg.nodes:
+        env = IN[n.id]
+        if env is None or n.ast is None or n.kind not in ("stmt", "test", "for"):
+            continue
+        root = n.ast.iter if n.kind == "for" else n.ast
+        for c in ast.walk(root):
+            if isinstance(c, (ast.FunctionDef, ast.Lambda)):
                 continue
-            if isinstance(s, ast.Assign):
-                scan_expr(s.value, env)
-                r = rank_of(s.value, env)
-                for t in s.targets:
-                    for n in ast.walk(t):
-                        if isinstance(n, ast.Name):
-                            env.pop(n.id, None)
-                    if isinstance(t, ast.Name) and r is not None:
-                        env[t.id] = r
-                continue
-            subs = []
-            for fld in ("body", "orelse", "finalbody"):
-                b = getattr(s, fld, None)
-                if b:
-                    subs.append(b)
-            for h in getattr(s, "handlers", []) or []:
-                subs.append(h.body)
-            if subs:
-                for fld in ("test", "iter"):
-                    e = getattr(s, fld, None)
-                    if e is not None:
-                        scan_expr(e, env)
-                if isinstance(s, (ast.For, ast.While)):
-                    # names assigned in the loop body are unknown at its head
-                    for nm in assigned(s.body):
-                        env.pop(nm, None)
-                if isinstance(s, ast.For):
-                    for n in ast.walk(s.target):
-                        if isinstance(n, ast.Name):
-                            env.pop(n.id, None)
-                killed = set()
-                for b in subs:
-                    block(b, dict(env))
-                    killed |= assigned(b)
-                for nm in killed:
-                    env.pop(nm, None)
-                continue
-            for n in ast.iter_child_nodes(s):
-                if isinstance(n, ast.expr):
-                    scan_expr(n, env)
-            for n in ast.walk(s):
-                if isinstance(n, ast.Name) and isinstance(n.ctx, ast.Store):
-                    env.pop(n.id, None)
-
-    block(f.node.body, {})
+            if isinstance(c, ast.Call) and isinstance(c.func, ast.Name) and c.func.id in ("int", "float") and len(c.args) == 1:
+                if rank_set(c.args[0], env) == 1:
+                    hits.append(c)
     return hits
 
 
